@@ -542,6 +542,12 @@ func (u *Unit) atomicLoad(fr *Frame, st *State, pv Val, rt types.Type, where str
 		if fd != nil && fd.AType != "" {
 			at = fd.AType
 		}
+		if at == "?" {
+			// an atomic.Value the contract file says nothing about: any value of any type, or none
+			i := u.fresh(SInt, "aval")
+			u.fact(fmt.Sprintf("(assert (>= %s 0))", i.S))
+			return &Scalar{T: i, Typ: rt, Origin: "field:" + key}
+		}
 		tid := u.eng.typeIDName(at)
 		i := u.define(App(SInt, "mk", tid, val), "aval")
 		u.assume(TTrue, And(Eq(App(SInt, "typeof", i), tid), Eq(App(SInt, "pay", i), val), Cmp(">", i, TZero)))
